@@ -29,6 +29,8 @@ pub struct Dims {
     pub cred: u8,     // 0 ok, 1 four parts, 2 six parts, 3 region, 4 service, 5 terminator, 6 date, 7 all wrong
     pub provider: u8, // 0 key, 1 ExpiredToken, 2 InvalidClientTokenId, 3 IO, 4 MalformedQueryString, 5 foreign
     pub sig: u8,      // 0 ok, 1 wrong (64 hex), 2 too long (65), 3 empty, 4 truncated (63)
+    #[serde(default)]
+    pub token: u8,    // 0 no session token, 1 a session token (temporary credentials) -- no rule depends on it
 }
 
 impl Dims {
@@ -80,6 +82,12 @@ pub fn materialize(d: &Dims) -> Option<Case> {
     plan.headers.push(("X-Opt".into(), b"o".to_vec()));
     plan.headers.push(("X-Pre-1".into(), b"p".to_vec()));
     plan.signed.extend(["x-req".to_string(), "x-opt".to_string(), "x-pre-1".to_string()]);
+    if d.token == 1 {
+        plan.token = Some("SESSION/token+1=".into());
+        if carrier == Carrier::Header {
+            plan.signed.push("x-amz-security-token".into());
+        }
+    }
     match d.reqs {
         1 => plan.signed.retain(|s| s != "host"),
         2 => plan.signed.retain(|s| s != "x-req"),
@@ -269,7 +277,7 @@ pub fn message_class(msg: &str) -> String {
 
 /// The single-defect vector that isolates the stage at which `d` stops.
 fn isolated(d: &Dims, stage: Stage) -> Dims {
-    let z = Dims { query_carrier: d.query_carrier, path: 0, query: 0, carrier: 0, alg: 0, syntax: 0, missing: 0, reqs: 0, date: 0, cred: 0, provider: 0, sig: 0 };
+    let z = Dims { query_carrier: d.query_carrier, path: 0, query: 0, carrier: 0, alg: 0, syntax: 0, missing: 0, reqs: 0, date: 0, cred: 0, provider: 0, sig: 0, token: d.token };
     match stage {
         Stage::Path => Dims { path: d.path, ..z },
         Stage::Query => Dims { query: d.query, ..z },
@@ -410,6 +418,7 @@ fn dims_space(thorough: bool, query_carrier: bool) -> Vec<Vec<u8>> {
             full(8),
             full(6),
             full(5),
+            full(2),
         ]
     } else {
         vec![
@@ -424,12 +433,13 @@ fn dims_space(thorough: bool, query_carrier: bool) -> Vec<Vec<u8>> {
             vec![0, 1, 3, 6, 7],
             vec![0, 1, 3, 5],
             full(4),
+            full(2),
         ]
     }
 }
 
 fn dims_at(space: &[Vec<u8>], query_carrier: bool, mut i: u64) -> Dims {
-    let mut v = [0u8; 11];
+    let mut v = [0u8; 12];
     for (k, dim) in space.iter().enumerate() {
         v[k] = dim[(i % dim.len() as u64) as usize];
         i /= dim.len() as u64;
@@ -447,6 +457,7 @@ fn dims_at(space: &[Vec<u8>], query_carrier: bool, mut i: u64) -> Dims {
         cred: v[8],
         provider: v[9],
         sig: v[10],
+        token: v[11],
     }
 }
 
